@@ -180,7 +180,9 @@ def run_shard(shard, tier, seed, wd, res):
             bit = rng.randrange(n * 8)
             b[bit // 8] ^= 0x80 >> (bit % 8)
             emit(b)
-    H.monitor_script(__import__("props.c04", fromlist=["x"]), s.text(), BUILDS, wd, res, shard)
+    # thorough tier: a share of the hostile strings also runs under AddressSanitizer ("never panics / no invalid access")
+    builds = BUILDS + (("asan",) if tier == "thorough" and shard["idx"] % 8 == 0 else ())
+    H.monitor_script(__import__("props.c04", fromlist=["x"]), s.text(), builds, wd, res, shard)
 
 
 def judge(ctx, rec, res):
